@@ -83,6 +83,7 @@ pub struct RunStats {
     pub clock_back: u64,
     pub model_diverged: u64,
     pub unmount_crash_images: u64,
+    pub unmount_faults: u64,
     pub alias_hash_form: u64,
     pub alias_tail_form: u64,
     pub hard_faults: u64,
@@ -113,6 +114,7 @@ pub struct World {
     pub stats_called_unusable: bool,
     /// after a hard fault the oracles are relaxed for the rest of the run
     pub faulted: bool,
+    pub faulted_in_rename: bool,
     /// library and model diverged (outcome oracle off): nothing more can be judged in this run
     pub stop: bool,
     pub unmount_failed: bool,
